@@ -58,7 +58,7 @@ def attr_plan(prop, fams):
     return run
 
 
-PLANS["C02"] = attr_plan("C02", [("allow", 3, 4), ("forced", 2, 3), ("link", 2, 3)])
+PLANS["C02"] = attr_plan("C02", [("allow", 2, 3), ("forced", 2, 3), ("link", 2, 3)])
 PLANS["C03"] = attr_plan("C03", [("url", 2, 3)])
 PLANS["C10"] = attr_plan("C10", [("style", 2, 3)])
 PLANS["C11"] = attr_plan("C11", [("link", 3, 4)])
